@@ -66,6 +66,17 @@ from .sequence import Sequence
 
 from .localciderExceptions import WLException
 
+# Verification hook (add-only). Inactive unless LOCALCIDER_VERIF=1 is set in the
+# environment when this module is imported AND a callback has been registered in
+# _VERIF_HOOK; with the guard off the only cost is one boolean test per step.
+_VERIF_ENABLED = os.environ.get("LOCALCIDER_VERIF") == "1"
+_VERIF_HOOK = None
+
+
+def _verif_emit(kind, **fields):
+    if _VERIF_ENABLED and _VERIF_HOOK is not None:
+        _VERIF_HOOK(kind, fields)
+
 
 class WangLandauMachine:
     """
@@ -643,6 +654,11 @@ class WangLandauMachine:
                 acceptProb = 0
                 skip = True
 
+            if _VERIF_ENABLED:
+                _verif_emit("proposal", nstep=nstep, idx_old=int(idx_old), idx_new=int(idx_new),
+                            acceptProb=float(acceptProb), skip=skip, f=float(f),
+                            parent=oseq.seq, child=nseq.seq, kold=float(kold), knew=float(knew))
+
             # print(acceptProb)
             # if new sequence kappa is less visited than old sequence kappa,
             # visit it
@@ -688,6 +704,10 @@ class WangLandauMachine:
             if not skip:
                 g[idx_old] = g[idx_old] + np.log(f)
                 H[idx_old] = H[idx_old] + 1
+
+            if _VERIF_ENABLED:
+                _verif_emit("booked", nstep=nstep, idx=int(idx_old), skip=skip, f=float(f),
+                            g=float(g[idx_old]), H=int(H[idx_old]), cur=oseq.seq)
 
             # increment the number of steps taken
             nstep = nstep + 1
@@ -944,6 +964,11 @@ class WangLandauMachine:
                 "\n")
             if(f > self.convergence):
                 self.writeLog(hlog, "\niter %d:\n" % (niter + 1))
+
+        if _VERIF_ENABLED:
+            _verif_emit("flatcheck", flat=bool(flatness_number == self.nbins_target),
+                        flatness_number=int(flatness_number), f=float(f), niter=int(niter),
+                        Hlocal=[int(x) for x in Hlocal])
 
         return(H, f, niter, 0)
 
